@@ -626,8 +626,11 @@ path = "src/lib.rs""#
             added_crates.insert("tokio");
         }
 
-        // Add dependencies from rust:: imports
-        for (crate_name, version_spec) in &self.rust_crate_deps {
+        // Add dependencies from rust:: imports, sorted by crate name: `rust_crate_deps` is a HashMap, whose
+        // iteration order differs from process to process, and the manifest must be reproducible.
+        let mut rust_deps: Vec<_> = self.rust_crate_deps.iter().collect();
+        rust_deps.sort_by(|a, b| a.0.cmp(b.0));
+        for (crate_name, version_spec) in rust_deps {
             // Skip if already added above
             if added_crates.contains(crate_name.as_str()) {
                 continue;
